@@ -9,6 +9,7 @@ import Qryn.Proofs.InternalMetricBridge
 import Qryn.Proofs.InternalAggBridge
 import Qryn.Gen.InternalAgg
 import Qryn.Proofs.InternalPlanCompose
+import Qryn.Proofs.InternalVecCompose
 import Qryn.Props.C08
 import Qryn.Read.JsonPathSyntax
 import Qryn.LogQL.PostMetric
@@ -1483,6 +1484,102 @@ theorem engines_agree_byWithout_sql (parse : Bytes → Option Rat) (o : Oracles)
     MatrixHas ((evalSelA o (d.toDbM mc) (planMetric mc (.range ⟨.unwrap fn' label, ⟨ms, fs⟩, dur, none, some gg, none⟩))).map normRow) l t v :=
   engines_agree_unwrapAgg_sql parse o E hE h0 mc hn d hd ms hm fs label lbl hlbl hent hnum fn fn' hfn (some gg)
     (fun g' hg' => by cases hg'; exact hgk) dur k n hdur hfrom hto hstep rc hrf hrt hok hord bs hbs l t v
+
+/-! ### the vector aggregation at plan level (extension c09p) -/
+
+/-- the in-process plan of `vfn [by/without (…)] (fn({sel} filters [d]))` when the hand-over is at the selector: the range
+    aggregation, the by/without planner `planAggregators` plans (`by ()` for no clause), `AggOpPlanner` -/
+def vecPlan (fn : Read.RangeFn) (dur : Nat) (vfn : VecFn) (bp bsuf : Option Grouping) : Plan Rat :=
+  ⟨[], some (.range fn, dur), none, none, some (vfn, planVecGrouping ((chosenGrouping bp bsuf).map toBW), none)⟩
+
+/-- the whole query as C08 has it -/
+def vecQuery (fn' : LogQL.RangeFn) (ms : List Matcher) (fs : List Stage) (dur : Nat) (vfn : VecFn) (bp bsuf : Option Grouping) : VecAgg :=
+  ⟨toVec vfn, bp, ⟨.lra fn', ⟨ms, fs⟩, dur, none, none, none⟩, bsuf, none⟩
+
+/-- cityHash64 of the kept labels (ClickHouse's series of the vector aggregation) separates exactly the kept label sets of the
+    streams that have a point in the window — `GroupHashOk` for the grouping of the vector aggregation, stated on the points -/
+def VecHashOk (o : Oracles) (c : LogQL.Ctx) (d : LokiDb) (a : VecAgg) : Prop :=
+  ∀ p ∈ rangePoints o c d a.inner c.fromNs c.toNs, ∀ p' ∈ rangePoints o c d a.inner c.fromNs c.toNs,
+    ((canonLabels (asMap (ptLabels o c d a.inner.sel p))).filter (fun kv => (groupingKeys (aggGrouping a)).contains kv.1 == (aggGrouping a).isBy) =
+     (canonLabels (asMap (ptLabels o c d a.inner.sel p'))).filter (fun kv => (groupingKeys (aggGrouping a)).contains kv.1 == (aggGrouping a).isBy)) ↔
+    (regroup o (aggGrouping a) (ptLabels o c d a.inner.sel p)).1 = (regroup o (aggGrouping a) (ptLabels o c d a.inner.sel p')).1
+
+/-- **engines_agree_vectorAgg_plan — `sum|min|max|avg|count [by/without (…)] (rate|count_over_time|bytes_rate|bytes_over_time({sel} filters [d]))`
+    as a whole plan.** In process: the rows of the real selector statement, any batching, the in-process range stage, the by/without
+    planner, `AggOpPlanner` (`Read.runPlan` of `vecPlan`). ClickHouse alone: C08's `aggStage ∘ rangePoints`. Same series (kept label
+    set), timestamps, values. The stage-level `engines_agree_vectorAgg` composed with the inner range aggregation: the two inner
+    matrices are the same entries up to order (`range_rows_perm`: `engines_agree_rangeAgg`'s membership statement + both sides
+    duplicate-free + the shape of the entries), the range points lie on the grid and carry a label document without a repeated name
+    (`SeriesStoreOk`). Hypotheses: exact rationals; `SeriesStoreOk`; whole-bucket window; `MetricOk` (series caps; the in-process
+    fingerprints separate the label sets at both aggregators); `VecHashOk`. -/
+theorem engines_agree_vectorAgg_plan (parse : Bytes → Option Rat) (o : Oracles) (E : Env Rat) (hE : E.num = ratOps parse)
+    (h0 : E.o.isNum [] = false) (c : LogQL.Ctx) (hn : c.namesOk) (d : LokiDb) (hd : SeriesStoreOk o c d)
+    (ms : List Matcher) (hm : ms.length ≤ 63) (fs : List Stage)
+    (fn : Read.RangeFn) (fn' : LogQL.RangeFn) (hfn : toLra fn = some fn') (vfn : VecFn) (bp bsuf : Option Grouping)
+    (dur k n : Nat) (hdur : 0 < dur) (hfrom : c.fromNs = (k : Int) * dur) (hto : c.toNs = c.fromNs + (n : Int) * dur)
+    (hgk : VecHashOk o c d (vecQuery fn' ms fs dur vfn bp bsuf))
+    (rc : Read.Ctx) (hrf : rc.fromNs = c.fromNs) (hrt : rc.toNs = c.toNs)
+    (hok : MetricOk E rc (vecPlan fn dur vfn bp bsuf) (chRows E.num o c d ms (fs.map .fl)))
+    (bs : Batches Rat) (hbs : bs.flatten = chRows E.num o c d ms (fs.map .fl))
+    (l : Read.Labels) (t : Int) (v : Rat) :
+    (∃ e ∈ (runPlan E rc (vecPlan fn dur vfn bp bsuf) bs).flatten, e.labels = l ∧ e.ts = t ∧ e.val = v) ↔
+    (∃ pt ∈ aggStage o c d ⟨ms, fs⟩ (vecQuery fn' ms fs dur vfn bp bsuf)
+        (rangePoints o c d ⟨.lra fn', ⟨ms, fs⟩, dur, none, none, none⟩ c.fromNs c.toNs),
+        canonLabels (asMap pt.labels) = l ∧ pt.ts = t ∧ pt.value = v) := by
+  have hcounts : rangeCounts fn = true := by cases fn <;> simp [toLra, rangeCounts] at hfn ⊢
+  have hrun := metricPlan_meets_logql E h0 rc (vecPlan fn dur vfn bp bsuf) rfl bs
+    (by rw [hbs]; exact chRows_proper E.num o c d ms _) (by rw [hbs]; exact hok)
+  rw [hrun, hbs]
+  have hrows : (chRows E.num o c d ms (fs.map .fl)).Perm ((baseX o c d ms (fs.map .fl)).map (scanX (ratOps parse))) := by
+    simp only [chRows, planLogX_correct o c hn d ⟨ms, fs.map .fl⟩ false hm, hE]
+    exact scanRows_evalLogX_perm (ratOps parse) o c d ms (fs.map .fl)
+  have hinner := range_rows_perm parse o c d hd ms fs fn fn' hfn dur k n hdur hfrom hto _ hrows
+  have := vec_agree parse o c d ⟨ms, fs⟩ E (vecQuery fn' ms fs dur vfn bp bsuf) vfn rfl
+    (rangePoints o c d ⟨.lra fn', ⟨ms, fs⟩, dur, none, none, none⟩ c.fromNs c.toNs) (Grid.of c.fromNs c.toNs dur)
+    (fun p hp => rangePoints_on_grid o c d ⟨ms, fs⟩ fn' dur k n hdur hfrom hto p hp)
+    (fun i j h => grid_inj c.fromNs dur hdur i j h)
+    (fun p hp => rangePoints_labels_doc o c d hd ⟨ms, fs⟩ fn' dur p hp)
+    hgk _ hinner l t v
+  simp only [evalPlan, vecPlan, vecQuery, Stages.stages, List.foldl_nil, hcounts, if_true, optCompare, hrf, hrt, hE] at this ⊢
+  exact this
+
+/-- **…from statement to statement**: composed with C08 `plan_metric_correct` for the real statement of the whole query
+    (`pre_without`, `labels_<id>`, `lra_main`, … on the samples path, or the metrics_15s shortcut under `ShortcutOk`), step ≤ range.
+    Left: the in-process engine over any batching of the rows of the real selector statement; right: the answer of the real
+    whole-query statement. -/
+theorem engines_agree_vectorAgg_sql (parse : Bytes → Option Rat) (o : Oracles) (E : Env Rat) (hE : E.num = ratOps parse)
+    (h0 : E.o.isNum [] = false) (mc : MCtx) (hn : mc.namesOk) (d : LokiDb) (hd : SeriesStoreOk o mc.toCtx d)
+    (ms : List Matcher) (hm : ms.length ≤ 63) (fs : List Stage)
+    (fn : Read.RangeFn) (fn' : LogQL.RangeFn) (hfn : toLra fn = some fn') (vfn : VecFn) (bp bsuf : Option Grouping)
+    (dur k n : Nat) (hdur : 0 < dur) (hfrom : mc.fromNs = (k : Int) * dur) (hto : mc.toNs = mc.fromNs + (n : Int) * dur)
+    (hgk : VecHashOk o mc.toCtx d (vecQuery fn' ms fs dur vfn bp bsuf))
+    (hstep : mc.stepNs ≤ (dur : Int))
+    (hsc : takesShortcut (.agg (vecQuery fn' ms fs dur vfn bp bsuf)) = true → ShortcutOk o d (.agg (vecQuery fn' ms fs dur vfn bp bsuf)))
+    (rc : Read.Ctx) (hrf : rc.fromNs = mc.fromNs) (hrt : rc.toNs = mc.toNs)
+    (hok : MetricOk E rc (vecPlan fn dur vfn bp bsuf) (chRows E.num o mc.toCtx d ms (fs.map .fl)))
+    (bs : Batches Rat) (hbs : bs.flatten = chRows E.num o mc.toCtx d ms (fs.map .fl))
+    (l : Read.Labels) (t : Int) (v : Rat) :
+    (∃ e ∈ (runPlan E rc (vecPlan fn dur vfn bp bsuf) bs).flatten, e.labels = l ∧ e.ts = t ∧ e.val = v) ↔
+    MatrixHas ((evalSelA o (d.toDbM mc) (planMetric mc (.agg (vecQuery fn' ms fs dur vfn bp bsuf)))).map normRow) l t v := by
+  rw [engines_agree_vectorAgg_plan parse o E hE h0 mc.toCtx hn.1 d hd ms hm fs fn fn' hfn vfn bp bsuf dur k n hdur hfrom hto hgk
+    rc hrf hrt hok bs hbs l t v]
+  rw [C08.plan_metric_correct o mc hn d _ (by simp [supported, vecQuery, MetricQuery.rangeAgg, hdur, hm]) hsc, matrixHas_evalMetric,
+    effWindow_whole mc (.agg (vecQuery fn' ms fs dur vfn bp bsuf)) k n hfrom hto,
+    metricPoints_agg o mc d (vecQuery fn' ms fs dur vfn bp bsuf) rfl rfl hstep]
+  have hmap : ∀ pt ∈ aggStage o mc.toCtx d ⟨ms, fs⟩ (vecQuery fn' ms fs dur vfn bp bsuf)
+        (rangePoints o mc.toCtx d ⟨.lra fn', ⟨ms, fs⟩, dur, none, none, none⟩ mc.fromNs mc.toNs),
+      ptLabels o mc.toCtx d ⟨ms, fs⟩ pt = pt.labels := by
+    intro pt hpt
+    obtain ⟨m, hm'⟩ := aggStage_labels o mc.toCtx d ⟨ms, fs⟩ _ _
+      (fun p hp => (rangePoints_labels_doc o mc.toCtx d hd ⟨ms, fs⟩ fn' dur p hp).imp (fun _ h => h.1)) pt hpt
+    exact ptLabels_of_map o mc.toCtx d _ pt m hm'
+  simp only [vecQuery] at hmap ⊢
+  constructor
+  · rintro ⟨pt, hpt, hl, ht, hv⟩
+    exact ⟨_, List.mem_map.mpr ⟨pt, hpt, rfl⟩, by simp only [hmap pt hpt]; exact hl, ht, hv⟩
+  · rintro ⟨p, hp, hl, ht, hv⟩
+    obtain ⟨pt, hpt, rfl⟩ := List.mem_map.mp hp
+    exact ⟨pt, hpt, by simp only [hmap pt hpt] at hl; exact hl, ht, hv⟩
 
 /-! ### the recorded finding: a step above the range -/
 /-- `clickhouse_planner.StepFixPlanner` on the matrix of the range / vector aggregation (rows ordered by series, then time):
